@@ -1,6 +1,6 @@
 /-
   Props/C14_race.lean — property C14, part 2c: a parked read raced by data arrival and cancellation
-  from another thread (756 reachable states; in its own file so that it builds in parallel).
+  from another thread (868 reachable states; in its own file so that it builds in parallel).
   INSTANCE theorem: every schedule of `rd_cancel_race`: the `fetch_add` election on `state_` lets
   exactly one of {I/O completion, cancellation} complete the operation, exactly once; a value is
   the byte count of the successful readv; nothing waits forever.  (`clean` does NOT hold here:
@@ -12,7 +12,7 @@ namespace Unifex.Props.C14
 open Unifex.Core Unifex.Proto.EpollOp
 
 theorem rd_cancel_race_safe : ∀ s, Reach (sys cfgRdCancelRace) s → safe cfgRdCancelRace s = true :=
-  safe_of_check _ { coded with M := 1523, W := 176 } 400 _ (by decide +kernel)
+  safe_of_check _ { coded with M := 1741, W := 192 } 400 _ (by decide +kernel)
 
 
 theorem race_witness (cs : List Nat) (good : St → Bool)
@@ -31,6 +31,16 @@ theorem race_witness (cs : List Nat) (good : St → Bool)
 theorem cancel_race_VIOLATES_no_stale_event :
     ∃ s, Reach (sys cfgRdCancelRace) s ∧ ((getOp s 0).freed && s.bad == 2) = true :=
   race_witness [0, 0, 1, 1, 1, 1, 1, 1, 0, 0, 1, 1, 1, 1, 0, 0, 1, 0, 0, 0, 0, 1, 1, 1] _ (by decide +kernel)
+
+/-- VIOLATION, same race, data arriving earlier: the readiness event is handled while the
+    cancellation is in flight (`on_read_complete` sees the cancel flag and returns WITHOUT
+    `epoll_ctl(DEL)`), the registration made after the cancellation's DEL is still there and the
+    descriptor still readable, so the next epoll_wait reports the operation again — but
+    `execute_pending_local` has already nulled its `execute_`: the loop calls a null function
+    pointer (`bad = 3`; on the real code: SIGSEGV, turned into a monitor by the harness). -/
+theorem cancel_race_VIOLATES_no_null_handler :
+    ∃ s, Reach (sys cfgRdCancelRace) s ∧ ((getOp s 0).completions == 0 && s.bad == 3) = true :=
+  race_witness [0, 0, 1, 1, 1, 1, 1, 1, 0, 0, 1, 1, 1, 1, 0, 0, 0, 0, 0, 0, 0, 0, 0, 0, 0, 0, 0] _ (by decide +kernel)
 
 /-- VIOLATION: the stop source's store to `callbackCompleted_` after the operation was destroyed. -/
 theorem cancel_race_VIOLATES_no_touch_after_completion :
